@@ -342,9 +342,10 @@ def same_outcome(i, m):
             return False
     if i.get("log") != m.get("log"):
         # a command that ran into the time limit may have been stopped before it wrote its log line (its interpreter
-        # still starting up on a busy machine): the log is then the model's without that last entry
+        # still starting up on a busy machine), and on a very busy machine an earlier command of the same run may be the
+        # one that exceeds the limit: the log is then a proper prefix of the model's, the outcome the same time-out
         li, lm = i.get("log") or [], m.get("log") or []
-        if not ("err" in ri and ri["err"] == "TimeoutExpired" and ri == rm and li == lm[:-1]):
+        if not ("err" in ri and ri["err"] == "TimeoutExpired" and ri == rm and len(li) < len(lm) and li == lm[:len(li)]):
             return False
     if i.get("payload_after") != m.get("payload_after"):
         return False
